@@ -468,6 +468,38 @@ def hybrid_temp_type_checks(ctx):
             ctx.check(f"resolve_hybrid returns that temporary [{name} value]", bool(same), "the LocalVar h_tmpN", lab(ret)[:60], fn_where(idx, fi), nontrivial=False)
 
 
+def floating_types_use_floating_operators(ctx):
+    """writer / reader agreement on what marks a floating value: the type object `float` / `double` denote (get_value_type_by_c_type) is
+    recognised as floating by every operator template that chooses between the bitvector and the float form of an operation"""
+    from .c02 import members_by_value, run_il_exec
+
+    idx = get_index(ctx.env)
+    ft = idx.func("get_value_type_by_c_type")
+    for tname in ("float", "double"):
+        box = {}
+
+        def mk(tname=tname):
+            outs = Interp(idx).explore(lambda i: i.call_function(ft, [tname]))
+            vals = [o.value for o in outs if o.kind == "return" and isinstance(o.value, AObj)]
+            return vals[0] if len(vals) == 1 else None
+        probe = mk()
+        ctx.check(f"C type {tname} denotes one type object", probe is not None, "a ValueType", "no / several results", fn_where(idx, ft))
+        if probe is None:
+            continue
+        for cls, enum, field, members in (("CompareOp", "CompareOpType", "op_type", ("LT", "GT", "LE", "GE", "EQ")), ("ArithmeticOp", "ArithmeticType", "arith_type", ("ADD", "SUB", "MUL", "DIV"))):
+            tab = idx.enum_table(enum)
+            for m in members:
+                if m not in tab:
+                    continue
+                def fields(m=m, field=field, enum=enum, tab=tab):
+                    a = mk_pure("a", mk())
+                    b = mk_pure("b", mk())
+                    return {field: EnumV(enum, m, tab[m]), "ops": [a, b], "value_type": mk()}
+                fi, outs = run_il_exec(idx, cls, fields)
+                got = sorted({outcome_text(o).split("(")[0] for o in outs})
+                ctx.check(f"{cls} {m} on two {tname} operands is the floating operation", bool(got) and all(g.startswith("F") for g in got), f"F{m}...(...)", str(got), fn_where(idx, fi))
+
+
 @rule("R10.8", "C10", "temporaries and registers keep their sort: h_tmpN carries sign, width and boolness of the operation's value; register operands get their architectural width", min_instances=45)
 def r10_8(ctx):
     from .c08 import r08_3
@@ -480,6 +512,10 @@ def r10_8(ctx):
     r08_6(ctx)  # locals of the bundled routines are disjoint: one IL variable never gets values of two widths
     idx = get_index(ctx.env)
     hybrid_temp_type_checks(ctx)
+    floating_types_use_floating_operators(ctx)
+    from .c08 import r08_5
+
+    r08_5(ctx)  # a routine body's temporaries are not the caller's: one IL variable never holds values of two widths
     # --- register operand widths (table shared with C07)
     from .c07 import r07_1, r07_7, r07_8
 
